@@ -39,7 +39,9 @@ def case_strategy(draw, tier):
                  "deform": draw(ac.deformation_types(mobile)),
                  "ignore_h": draw(st.booleans()),
                  "steps": draw(st.integers(1, 40 if mobile <= 10 else 8)),
-                 "seed": draw(gen.SEEDS)})
+                 "seed": draw(gen.SEEDS),
+                 "second_round": draw(st.sampled_from([None, None, "start", "end"])),
+                 "seed2": draw(gen.SEEDS)})
     return pair
 
 
@@ -118,6 +120,29 @@ def check(case):
             np.array_equal(positions(ali.end), positions(ali2.end))):
         raise PropertyViolation("deterministic", "%s: repeating the alignment with the same seed gives different "
                                 "coordinates" % label)
+    # a second alignment on the same object after re-assigning one molecule with another
+    # conformation of the same species (documented use of the setters)
+    second = case.get("second_round")
+    if second:
+        rng = np.random.default_rng(case["seed2"])
+        spec = sspec if second == "start" else espec
+        n = gen.spec_n(spec)
+        newpos = gen.walk_geometry(n, spec["edges"], rng, lo=0.1, hi=0.6) + rng.uniform(-2, 2, 3)
+        newmol = build_molecule(spec, coords=newpos)
+        if second == "start":
+            ali.start = newmol
+        else:
+            ali.end = newmol
+        s0b, e0b = positions(ali.start), positions(ali.end)
+        if not np.array_equal(s0b if second == "start" else e0b, newpos):
+            raise PropertyViolation("reassign", "%s: re-assigning %s did not take the new coordinates" % (label, second))
+        np.random.seed(case["seed2"])
+        restr = None if case.get("restr_none") else [tuple(r) for r in case["restr"]]
+        lib("align-second", ali.align_molecules, restr, None if case["deform"] is None else tuple(case["deform"]),
+            case["ignore_h"])
+        if not np.array_equal(positions(newmol), newpos):
+            raise PropertyViolation("caller-objects", "%s: the re-assigned Molecule object was modified" % label)
+        judge(case, s0b, e0b, ali, label + " (second alignment after re-assigning %s)" % second)
     mobile_n = min(len(s0), len(e0))
     # restraints that survive hydrogen filtering
     fixed_spec = espec if start_mobile else sspec
@@ -134,7 +159,7 @@ def check(case):
             "classes": ["relation:" + case["relation"], "deform:%s" % ("default" if case["deform"] is None else
                                                                        "".join(map(str, sorted(case["deform"])))),
                         "ignore_h" if case["ignore_h"] else "keep_h", "restraints" if surv else "no-restraints",
-                        "deformed" if deformed else "rigid"],
+                        "deformed" if deformed else "rigid", "second-round" if second else "single-round"],
             "sample": {"relation": case["relation"], "n_start": len(s0), "n_end": len(e0), "deform": case["deform"],
                        "ignore_h": case["ignore_h"], "restr": case["restr"], "steps": case["steps"], "seed": case["seed"]}}
 
